@@ -82,7 +82,7 @@ def rule_queue(chk):
     call = _tw(chk, "__call__")
     dparam = [a.arg for a in call.node.args.args][1]
     calls = [n for n in iter_own_nodes(call.node) if isinstance(n, ast.Call)]
-    ok = len(calls) == 1 and isinstance(calls[0].func, ast.Attribute) and calls[0].func.attr == "put" and common.is_self_attr(calls[0].func.value, qa) \
+    ok = len(calls) == 1 and isinstance(calls[0].func, ast.Attribute) and calls[0].func.attr in ("put", "put_nowait") and common.is_self_attr(calls[0].func.value, qa) \
         and len(calls[0].args) == 1 and isinstance(calls[0].args[0], ast.Name) and calls[0].args[0].id == dparam and not calls[0].keywords \
         and not stores_to_name(call, dparam)
     branches = [n for n in iter_own_nodes(call.node) if isinstance(n, (ast.If, ast.Try, ast.While, ast.For, ast.Return))]
